@@ -23,6 +23,9 @@ ASSUMPTIONS = [
     "long names use the docstring's wording: '<quality> <number>' with perfect for unaltered fourths and fifths, major otherwise",
     "from_shorthand results are compared on (valid name, letter, pitch class); the statement fixes the exact string only for "
     "the two inverse clauses (determine -> from_shorthand reproduces the second note; up then down returns the start)",
+    "up-then-down must return the exact starting name for names with <= 3 accidentals (the statement's domain is double accidentals); "
+    "from 4 accidentals on the way back can pass through a six-accidental note whose sharp and flat spellings are both allowed by C02, so "
+    "only letter and pitch class are asserted there",
     "invert is given lists only; element values are JSON-like (no NaN) so that deep comparison is meaningful",
 ]
 
@@ -104,8 +107,15 @@ def check_shorthand(ctx, case):
                 backk = ctx.ok("from_shorthand/up-down", lambda: intervals.from_shorthand(r, sh, up=False))
                 ctx.check(failed(back) or failed(backk) or back == backk, "from_shorthand/down/keyword-form", lambda: "%r vs %r" % (backk, back))
                 if not failed(back):
-                    ctx.check(back == name, "from_shorthand/up-down/round-trip",
-                              lambda: "%r up %r -> %r, down %r -> %r" % (name, sh, r, sh, back))
+                    if len(name) - 1 <= 3:
+                        ctx.check(back == name, "from_shorthand/up-down/round-trip",
+                                  lambda: "%r up %r -> %r, down %r -> %r" % (name, sh, r, sh, back))
+                    else:
+                        # with four or more accidentals on the starting name the way back passes through a note that may need
+                        # exactly six accidentals, where sharps and flats are both within C02's "at most six": the spelling of
+                        # the starting name is then not determined, its letter and pitch are
+                        ctx.check(T.valid(back) and back[0] == name[0] and T.pc(back) == T.pc(name), "from_shorthand/up-down/round-trip",
+                                  lambda: "%r up %r -> %r, down %r -> %r" % (name, sh, r, sh, back))
     ctx.note_case(len(sh) == 3, ["shorthand:" + ("up" if up else "down"), "shorthand-acc:%d" % (len(sh) - 1), "degree:%d" % degree])
 
 
